@@ -802,6 +802,20 @@ fn families_of(prop: &str, tier: Tier) -> Vec<Cfg> {
                 r.sub_counts = vec![3];
                 r.pub_shapes = vec![1, 2];
             }
+            // the application closes connections itself, in every form of DISCONNECT (plain, disconnect_with, asking the
+            // broker to keep the session for 300 s / for ever, with a reason code), with requests in flight
+            let mut dg = Cfg::base("C05-connections-closed-by-disconnect-in-every-form");
+            dg.props = vec!["C05"];
+            dg.ops = vec![OpK::Pub1, OpK::Pub2, OpK::Sub, OpK::Poll, OpK::Disconnect, OpK::DropConn];
+            dg.io = IoMenu::benign();
+            dg.io.write_pending = true;
+            dg.cancel = true;
+            dg.disc_forms = true;
+            dg.broker.may_lose_session = true;
+            dg.max_ops = if q { 6 } else { 8 };
+            dg.max_conns = if q { 3 } else { 4 };
+            dg.max_reqs = 2;
+            dg.dev = 1;
             if !q {
                 // the full menu of handshake failures with two deviations is explored on three connections;
                 // four connections with one deviation
@@ -809,9 +823,9 @@ fn families_of(prop: &str, tier: Tier) -> Vec<Cfg> {
                 b.family = "C05-handshake-variants-four-connections";
                 b.dev = 1;
                 a.max_conns = 3;
-                return vec![a, b, r, n, x, w];
+                return vec![a, b, r, n, x, w, dg];
             }
-            vec![a, r, n, x, w]
+            vec![a, r, n, x, w, dg]
         }
         "C06" => {
             let mut v = Vec::new();
